@@ -12,10 +12,11 @@ class C01(InterpProp):
     cmp_callbacks = False
     cmp_err = 'class'
     cmp_time = False
-    quick_cases = 1000
+    quick_cases = 2500
     thorough_cases = 40000
     n_ops = 36
     edited = 0.2
+    owns_construction = True
     rule = ('random well-formed charts (≤14 states, dense transitions with all priority classes, guards over '
             'event parameters, context flags, after/idle/active) × random histories of queue/setvar/exec; '
             'oracle: the set of fired transitions is recomputed from the configuration before the step, the '
@@ -26,6 +27,9 @@ class C01(InterpProp):
     def knobs(self, rnd, tier):
         kn = gen.Knobs(avoid_nondet=False, trans_per_owner=rnd.choice([1.5, 2.5, 4.0]), p_guard=0.6,
                        p_eventless=rnd.choice([0.1, 0.25]), max_states=rnd.choice([8, 14, 20]))
+        if rnd.random() < 0.2:
+            # the event whose name is the empty string is an event like any other
+            kn.empty_event = 0.15
         c = rnd.random()
         if c < 0.25:
             # priorities with several digits and several negative ones (their order is numeric)
